@@ -15,7 +15,9 @@
 
    STATE.  A heap of generator objects [heap : nat -> gstate] (object 0 = numpy's process-global
    RandomState [np.random.mtrand._rand]; object 1 = the hidden instance behind Python's [random]
-   module; objects >= 2 are RandomState instances: the caller's, or allocated by [get_rng]),
+   module; object 2 = the ENVIRONMENT (clock, OS entropy, hash seed, address-space layout, contents of
+   uninitialised memory) read by [NonDet]; objects >= 3 are RandomState instances: the caller's, or
+   allocated by [get_rng]),
    an allocation counter, the history, a status.  The generator type, its step function
    [next : gstate -> param -> draw * gstate] and the seeding functions are Section variables:
    every theorem holds for ALL generators (Mersenne Twister is one instance), and
@@ -36,7 +38,17 @@ Inductive sexp :=
 | ESeed                (* the function's own [seed] parameter, as received *)
 | EVar (x : var)       (* a local name (bound earlier to an rng object) *)
 | ENone                (* literally None / the argument is omitted *)
+| EDrawn (x : var)     (* an integer obtained from values drawn earlier from the rng held by x
+                          (e.g. [int(perm_seeds[u])] with [perm_seeds = x.randint(.., size=k)]):
+                          a function of the arguments and of the draws so far *)
+| EComputed            (* an integer computed from the arguments alone ([seed = u]), mentioning neither the
+                          raw seed nor an rng object *)
 | EOther.              (* any other expression *)
+
+(* seeds that make the callee start a FRESH generator from a number that is itself a function of
+   the arguments and of the history: the callee runs on a sub-stream *)
+Definition derived (e : sexp) : bool :=
+  match e with EDrawn _ | EComputed => true | _ => false end.
 
 Inductive cmd :=
 | Skip
@@ -44,6 +56,10 @@ Inductive cmd :=
 | DrawLocal (x : var)            (* x.randint(..) / x.permutation(..) / any other use of x *)
 | DrawNpGlobal                   (* any use of np.random.* outside get_rng *)
 | DrawPyGlobal                   (* any use of Python's random.* outside get_rng *)
+| NonDet                         (* a value that is NOT a function of arguments, seed and generator states:
+                                    time.*, os.urandom, uuid, id()/hash() of str, iteration order of a set of
+                                    str, np.empty read before written, zero-argument rng.seed(): a read of the
+                                    ENVIRONMENT (heap object 2).  Always rejected. *)
 | Call (f : fname) (e : sexp)    (* call of another bct function, passing e as its seed *)
 | Seq (a b : cmd)
 | Choice (a b : cmd)
@@ -76,11 +92,16 @@ Fixpoint check (P : program) (c : cmd) (a : astate) : option astate :=
   | DrawLocal x => if mem x (snd a) then Some a else None
   | DrawNpGlobal => None
   | DrawPyGlobal => None
+  | NonDet => None
   | Call f ESeed =>
       if fst a then None else match lookup P f with Some _ => Some (true, snd a) | None => None end
   | Call f (EVar y) =>
       if mem y (snd a) then match lookup P f with Some _ => Some a | None => None end else None
   | Call f ENone => match lookup P f with Some (Pure, _) => Some a | _ => None end
+  | Call f (EDrawn y) =>            (* a sub-stream seeded by numbers drawn from THE rng: the callee starts a fresh generator *)
+      if mem y (snd a) then match lookup P f with Some _ => Some a | None => None end else None
+  | Call f EComputed =>             (* only while the raw seed is still unused (never in a Pure body, whose start state is (true, [])) *)
+      if fst a then None else match lookup P f with Some _ => Some a | None => None end
   | Call f EOther => None
   | Seq c1 c2 => match check P c1 a with Some a1 => check P c2 a1 | None => None end
   | Choice c1 c2 =>
@@ -165,6 +186,8 @@ Definition eval (e : sexp) (fr : frame) (st : state) : value :=
   | ESeed => seedv fr
   | EVar x => env fr x
   | ENone => VNone
+  | EDrawn _ => VInt (decide (hist st))              (* an integer that is a function of arguments and draws so far *)
+  | EComputed => VInt (decide (hist st))
   | EOther => VInt (decide (hist st))                (* some seed computed from arguments and draws *)
   end.
 
@@ -184,6 +207,7 @@ Fixpoint exec (fuel : nat) (c : cmd) (fr : frame) (st : state) {struct fuel} : f
       | DrawLocal x => (fr, draw (env fr x) st)
       | DrawNpGlobal => (fr, draw (VObj 0) st)
       | DrawPyGlobal => (fr, draw (VObj 1) st)
+      | NonDet => (fr, draw (VObj 2) st)
       | Call f e =>
           match lookup P f with
           | Some (_, body) => (fr, snd (exec k body (new_frame (eval e fr st)) st))
@@ -216,7 +240,9 @@ Definition observable (st : state) : list ev * stat := (hist st, status st).
 (* ------------------------------------------------------------------ reference machine
    The SPECIFICATION of a disciplined function: the same control structure run against ONE
    stream [ag], with no heap, no names, no seed.  [exec] of a checked program refines it
-   (Proofs/EffectLang.v, exec_refines); all four clauses of C05 follow from that. *)
+   (Proofs/EffectLang.v, exec_refines); all four clauses of C05 follow from that.  The one place where a
+   second stream appears is a call whose seed is [derived]: the callee runs on the stream of
+   RandomState(n), n a function of the history, and the caller's stream is handed back untouched. *)
 Record amach := mkA { ag : gstate; ahist : list ev; astatus : stat }.
 Definition astop (m : amach) : amach :=
   match astatus m with Running => mkA (ag m) (ahist m) OutOfFuel | _ => m end.
@@ -238,9 +264,14 @@ Fixpoint aexec (fuel : nat) (c : cmd) (m : amach) {struct fuel} : amach :=
       | DrawLocal _ => adraw m
       | DrawNpGlobal => adraw m
       | DrawPyGlobal => adraw m
-      | Call f _ =>
+      | NonDet => adraw m
+      | Call f e =>
           match lookup P f with
-          | Some (_, body) => aexec k body m
+          | Some (_, body) =>
+              if derived e then      (* sub-stream: the callee runs on RandomState(number computed from the history); the caller's stream is not consumed *)
+                let m1 := aexec k body (mkA (mk (decide (ahist m))) (ahist m) (astatus m)) in
+                mkA (ag m) (ahist m1) (astatus m1)
+              else aexec k body m
           | None => mkA (ag m) (ahist m) Raised
           end
       | Seq a b => aexec k b (aexec k a m)
